@@ -3,6 +3,7 @@ package core
 import (
 	"encoding/json"
 	"math/rand"
+	"sort"
 )
 
 // Edge of an exported TLC state graph: action (raw JSON), from-state key, to-state key.
@@ -18,7 +19,61 @@ type Graph struct {
 	Out   map[string][]*Edge
 	Edges int
 	dedup map[string]bool
+	// IsSet tells which JSON arrays of a state are TLA+ sets (their order in ToJson output is not canonical);
+	// path lists the object keys from the root of the state, "*" standing for an array level.
+	IsSet func(path []string) bool
 }
+
+// canon returns a canonical key of a state: object keys sorted, set-arrays sorted by their elements' canonical form.
+func (g *Graph) canon(raw json.RawMessage) string {
+	if g.IsSet == nil {
+		return string(raw)
+	}
+	var v any
+	if err := json.Unmarshal(raw, &v); err != nil {
+		return string(raw)
+	}
+	var walk func(v any, path []string) any
+	walk = func(v any, path []string) any {
+		switch x := v.(type) {
+		case map[string]any:
+			out := make(map[string]any, len(x))
+			for k, e := range x {
+				out[k] = walk(e, append(append([]string{}, path...), k))
+			}
+			return out
+		case []any:
+			out := make([]any, len(x))
+			for i, e := range x {
+				out[i] = walk(e, append(append([]string{}, path...), "*"))
+			}
+			if g.IsSet(path) {
+				keys := make([]string, len(out))
+				for i, e := range out {
+					b, _ := json.Marshal(e)
+					keys[i] = string(b)
+				}
+				sort.Sort(&byKey{keys, out})
+			}
+			return out
+		}
+		return v
+	}
+	b, _ := json.Marshal(walk(v, nil))
+	return string(b)
+}
+
+type byKey struct {
+	k []string
+	v []any
+}
+
+func (b *byKey) Len() int           { return len(b.k) }
+func (b *byKey) Less(i, j int) bool { return b.k[i] < b.k[j] }
+func (b *byKey) Swap(i, j int)      { b.k[i], b.k[j] = b.k[j], b.k[i]; b.v[i], b.v[j] = b.v[j], b.v[i] }
+
+// Key returns the canonical key of a state given as JSON text.
+func (g *Graph) Key(js string) string { return g.canon(json.RawMessage(js)) }
 
 // NewGraph creates an empty graph.
 func NewGraph() *Graph { return &Graph{Out: map[string][]*Edge{}, dedup: map[string]bool{}} }
@@ -29,12 +84,13 @@ func (g *Graph) AddJSON(js string) error {
 	if err := json.Unmarshal([]byte(js), &e); err != nil {
 		return err
 	}
-	k := string(e.F) + "|" + string(e.A)
+	from, to := g.canon(e.F), g.canon(e.T)
+	k := from + "|" + string(e.A)
 	if g.dedup[k] {
 		return nil
 	}
 	g.dedup[k] = true
-	g.Out[string(e.F)] = append(g.Out[string(e.F)], &Edge{A: e.A, From: string(e.F), To: string(e.T)})
+	g.Out[from] = append(g.Out[from], &Edge{A: e.A, From: from, To: to})
 	g.Edges++
 	return nil
 }
